@@ -1,5 +1,5 @@
 From Coq Require Import List NArith Bool.
-From LTV.C12 Require Import Model ProofsA ProofsB ProofsC ProofsD ProofsE ProofsF ProofsG ProofsH.
+From LTV.C12 Require Import Model ProofsA ProofsB ProofsC ProofsD ProofsE ProofsF ProofsG ProofsH ProofsI ProofsJ.
 Import ListNotations.
 Local Open Scope N_scope.
 
@@ -199,3 +199,46 @@ Theorem no_internal_error_covers_old_witness :
   valid_opsb init witness_rate_added = true /\ rate_quietb init witness_rate_added = true.
 Proof. exact ProofsH.no_internal_error_covers_old_witness. Qed.
 Print Assumptions no_internal_error_covers_old_witness.
+
+(* reactivation_liveness on one list: for EVERY valid event list (any interleaving of inserts,
+   erases, consumer steps, buffered/unthrottled bytes and updates), a deactivated connection with n
+   connections waiting ahead of it is active again (or has left the throttle) before the (n+1)-th
+   update_quota that finds min_chunk in the pool (unallocated + the previous tick's grant) *)
+Theorem list_reactivation_liveness :
+  forall l t id, tl_inv t -> enabled t = true -> valid_run t l ->
+  In id (ids (inact t)) -> (ahead id (ids (inact t)) < goods t l)%nat -> reactivated id t l.
+Proof. exact ProofsI.list_reactivation_liveness. Qed.
+Print Assumptions list_reactivation_liveness.
+
+(* fairness of the slave cursor: one tick always serves the list at the cursor (its need never
+   exceeds unused + quota) and moves on in the cyclic order slave 0 .. slave k-1, root *)
+Theorem tick_cursor :
+  forall x q f x' acts, tick_pre x -> q <= Qmax -> receive_quota x q f = Ok (x', acts) ->
+  exists m : nat,
+    length (slaves x') = length (slaves x) /\
+    (next x + m <= length (slaves x))%nat /\
+    (next x' = 0%nat /\ (next x + m = length (slaves x))%nat \/ next x' = (next x + m)%nat) /\
+    ((next x < length (slaves x))%nat -> (1 <= m)%nat) /\
+    ((next x = length (slaves x))%nat -> next x' = 0%nat) /\
+    (forall i s, (next x <= i < next x + m)%nat -> nth_error (slaves x) i = Some s ->
+       exists s2, nth_error (slaves x') i = Some s2 /\ proc q f s s2).
+Proof. exact ProofsJ.receive_quota_cursor. Qed.
+Print Assumptions tick_cursor.
+
+(* hence every slave list is served within |slaves| + 1 consecutive ticks (any quotas <= 2^26) *)
+Theorem cursor_reaches_every_list :
+  forall qs x i, tick_pre x -> Forall (fun p => fst p <= Qmax) qs ->
+  (i < length (slaves x))%nat -> runs_ok x qs -> (length (slaves x) < length qs)%nat -> served i x qs.
+Proof. exact ProofsJ.cursor_reaches_every_list. Qed.
+Print Assumptions cursor_reaches_every_list.
+
+(* served = the list's update_quota ran with exactly its share need_of(q, f, rate) of the tick;
+   with list_reactivation_liveness: a deactivated connection on slave list i with n connections
+   ahead of it is active again after at most (n+1)*(|slaves|+1) ticks, provided each time its list
+   is served the pool (unallocated + previous grant) holds min_chunk and rates/slaves do not change *)
+Theorem served_means_updated :
+  forall q f s s2, slv_inv true s -> q <= Qmax -> proc q f s s2 ->
+  exists t' u a, update_quota (s_tl s) (need_of q f (s_rate s)) = Ok (t', u, a) /\
+                 same_quota t' (s_tl s2) /\ s_rate s2 = s_rate s.
+Proof. exact ProofsJ.proc_updates. Qed.
+Print Assumptions served_means_updated.
